@@ -415,7 +415,7 @@ func c05Concurrent(t *testing.T, w *c05World, configs []c05Config) {
 				res.hit(verifHit{Key: "C05:wrong-value:" + k.name + ":overlap", Oracle: "a wrong value never raises a session", Kind: "schedule",
 					What: fmt.Sprintf("the request with the wrong value was answered %d and raised its session", o.codes[1]), Case: history})
 			}
-			setup := append([]string{"Tick 3000", fmt.Sprintf("Login %d true", k.user), fmt.Sprintf("Login %d true", k.user), fmt.Sprintf("Login %d true", k.user)}, o.rq.setupCoq...)
+			setup := append([]string{"Tick 3000", fmt.Sprintf("Login %d true []", k.user), fmt.Sprintf("Login %d true []", k.user), fmt.Sprintf("Login %d true []", k.user)}, o.rq.setupCoq...)
 			cases = append(cases, fmt.Sprintf("(%d, [%s], (%s, %s, %s), [%s]%%nat, (%s, %s, %s))", k.cfg, strings.Join(setup, "; "), o.rq.coq[0], o.rq.coq[1], o.rq.coq[2],
 				strings.Join(sched, "; "), coqBool(o.right), coqBool(o.wrong), coqBool(o.repl)))
 			idx = append(idx, fmt.Sprintf("%d\tconcurrent %s cfg=%d: %s ; %s => right=%v(%d) wrong=%v(%d) replay=%v(%d)", len(idx), k.name, k.cfg, history[0], history[1], o.right, o.codes[0], o.wrong, o.codes[1], o.repl, o.codes[2]))
